@@ -110,6 +110,14 @@ Theorem c19_detect_later_wins : forall s0 ds, Forall (fun d => wf_ores (d_res d)
 Proof. exact detect_spec. Qed.
 Print Assumptions c19_detect_later_wins.
 
+(** ... and its schema URL is the merge rule folded over the accepted detectors' URLs, starting from the
+    configured one; empty as soon as two non-empty URLs differed (and exactly then a conflict is reported). *)
+Theorem c19_detect_schema : forall s0 ds, Forall (fun d => wf_ores (d_res d)) ds ->
+  let '(e, c) := schema_fold s0 (map (fun d => oschema (d_res d)) (filter accepted ds)) in
+  existsb is_conflict (snd (detect s0 ds)) = c /\ r_schema (fst (detect s0 ds)) = if c then [] else e.
+Proof. exact detect_schema. Qed.
+Print Assumptions c19_detect_schema.
+
 (** Equal is agreement of the Equivalent() identities; on regular values it is equality of attributes. *)
 Theorem c19_equal_same_identity : forall a b,
   res_equal a b = res_key_hit a b /\
